@@ -297,3 +297,19 @@ PROPS["C13"] = dict(
     min_labels=dict(quick=dict(escaped_token=10000, array_end=8000, later_op_through_written_location=4000, failing_op=10000, corrupted=30000)),
     assumptions=["member names and pointer strings without NUL (C strings in the API)"],
 )
+
+PROPS["C05"] = dict(
+    harness="C05_ownership.cpp", level="exploration",
+    technique="stateful model-based property testing of ownership: the harness keeps a ledger of the references it owns and checks, after every API call, the reachability invariant (tracked nodes not yet destroyed == tracked nodes reachable through public accessors from owned references), exactly-once destruction callbacks, put()==1 iff freed; ASan + exact allocation accounting",
+    level_text="histories of up to 40 calls over a pool of handles - every constructor, get, put, object add/add_ex/replace/del, array add/put/insert/del "
+               "(occupied slots, beyond the end, ranges), set_userdata / set_serializer replacing a callback, deep copy with a tracking shallow-copy "
+               "callback (and the documented failure of the default one), json_pointer_set (incl. replacing the root), json_patch_apply, and operations "
+               "chosen to fail (self-add, absurd index, dangling pointer): after every call the set of live tracked nodes must equal the set reachable from "
+               "references the harness owns, callbacks fire once, put reports 'freed' exactly when the node died, and at the end nothing remains allocated",
+    level_note="the generator obeys the documented ownership rules by construction (transfers only references it owns, takes an extra get before sharing, never builds a cycle); it does not predict how an operation rearranges nodes, only who may still reach them",
+    rule="call history; non-trivial = it replaces/deletes an entry whose value has an outstanding harness reference, or overwrites an occupied array slot, or contains a failed transfer; distinct by hash of the call list",
+    quick=[dict(mode="hist", cases=50000, workers=8, maxbytes=3000)],
+    thorough=[dict(mode="hist", cases=4000000, workers=16, maxbytes=8000), dict(mode="hist", fuzz=True, secs=300, jobs=8, max_len=1024)],
+    min_labels=dict(quick=dict(replace_or_delete_of_shared_value=2500, put_idx_over_occupied_slot=700, failed_transfer=5000, cascade=8000, userdata_replaced=8000, deep_copy=5000, pointer_set=4000, patch=5000)),
+    assumptions=["histories follow the documented ownership rules; misuse (double put, cycles) is outside the property"],
+)
